@@ -22,10 +22,21 @@
 //!            F<g> set_agenda_focus | P pop_agenda_focus | Z clear_agenda_focus | N reset_no_loop_tracking
 //!            V<g> activate_agenda_group | A<rule> add_rule | R<n> remove_rule | E<n>/D<n> set_rule_enabled
 //!            S<f>.<v> facts.set
+//!            T execute (the plain wrapper: execute_at_time(now)) | B<0|1> set_debug_mode(false|true)
+//!            Q<0|1> disable_analytics() | enable_analytics(RuleAnalytics::new(AnalyticsConfig::default()))
+//!            MA<rule> / MR<n> / ME<n> / MD<n>  the knowledge-base calls of A / R / E / D through knowledge_base_mut()
+//!            K knowledge_base().clear()
+//!            W<g> execute_workflow_step(group g)  (= set_agenda_focus; execute; process_workflow_actions)
+//!            Y<g>.<g>.… execute_workflow(groups)   (steps until one fires nothing), res = w<steps_executed> | err
+//!          max_cycles token `d` = the engine is built with `RustRuleEngine::new` (EngineConfig::default(): 100 cycles,
+//!          30 s timeout — never reached by these cases) instead of `with_config`
+//!          A case with a W / Y op builds workflow-only rules WITH the Custom marker (no 0 ms ScheduleRule marker): the
+//!          scheduled-task part of process_workflow_actions then has nothing to run (scheduled tasks are outside C02/C03).
 //! obs  := `-` | opobs;opobs;…   opobs := res/events/active/facts
 //!   res := ok,<cycle_count>,<rules_evaluated>,<rules_fired> | err | p<g> | p_ | a1 | a0 | b1 | b0 | u
 //!   events := `-` | e,e,…  e := f<n> (rule n fired) | a<g> (ActivateAgendaGroup(g) executed)
 //! Abstract time a < 50 is 2001-01-01T00:00:<a>Z, a > 50 is 2201-01-01T00:00:<a-50>Z, so "now" lies between.
+//! The salience is set through `with_salience` for even rule names and through its alias `with_priority` for odd ones.
 //! Every rule gets trailing marker actions (custom action "tr") so that the firing sequence is
 //! observable through `execute_at_time` as well; for `execute_with_callback` the callback sequence is
 //! what is reported and it is cross-checked against the markers (`!cb` suffix on mismatch).
@@ -191,6 +202,9 @@ pub fn show_rule(r: &RuleSpec) -> String {
     )
 }
 
+/// `maxc` value that stands for "built with `RustRuleEngine::new`" (case token `d`)
+pub const DFLT: usize = usize::MAX;
+
 pub struct Case {
     pub maxc: usize,
     pub facts: Vec<Option<i64>>,
@@ -212,7 +226,8 @@ pub fn parse_case(case: &str) -> Option<Case> {
     };
     let rules = if t[2] == "-" { vec![] } else { t[2].split(';').map(parse_rule).collect::<Option<Vec<_>>>()? };
     let ops = if t[3] == "-" { vec![] } else { t[3].split(';').map(|s| s.to_string()).collect() };
-    Some(Case { maxc: t[0].parse().ok()?, facts, rules, ops })
+    let maxc = if t[0] == "d" { DFLT } else { t[0].parse().ok().filter(|m| *m != DFLT)? };
+    Some(Case { maxc, facts, rules, ops })
 }
 
 pub fn show_facts(f: &[Option<i64>]) -> String {
@@ -226,7 +241,7 @@ pub fn show_facts(f: &[Option<i64>]) -> String {
 pub fn show_case(c: &Case) -> String {
     format!(
         "{} {} {} {}",
-        c.maxc,
+        if c.maxc == DFLT { "d".to_string() } else { c.maxc.to_string() },
         show_facts(&c.facts),
         if c.rules.is_empty() { "-".into() } else { c.rules.iter().map(show_rule).collect::<Vec<_>>().join(";") },
         if c.ops.is_empty() { "-".into() } else { c.ops.join(";") }
@@ -318,7 +333,7 @@ pub fn workflow_only(r: &RuleSpec) -> bool {
     !r.acts.is_empty() && r.acts.iter().all(|x| x.0 == 'W')
 }
 
-fn build_rule(r: &RuleSpec) -> Rule {
+fn build_rule(r: &RuleSpec, marker_always: bool) -> Rule {
     let op = match r.cond.0 {
         'E' => Operator::Equal,
         'L' => Operator::LessThan,
@@ -348,13 +363,15 @@ fn build_rule(r: &RuleSpec) -> Rule {
     // its action list really consists of workflow actions only; its firing marker is a trailing
     // `ScheduleRule { "r<name>", 0 ms }`: the workflow engine's task list is a log in push order, read back (and drained) with
     // `get_ready_tasks` after every execute and merged with the Custom-marker log by the instants both carry
-    if workflow_only(r) {
+    if workflow_only(r) && !marker_always {
         actions.push(ActionType::ScheduleRule { rule_name: format!("r{}", r.name), delay_ms: 0 });
     } else {
         actions.push(marker(0, r.name));
     }
-    let mut rule = Rule::new(format!("r{}", r.name), cond, actions)
-        .with_salience(r.sal as i32)
+    // the salience reaches the rule through `with_salience` (even names) or its alias `with_priority` (odd names)
+    let rule = Rule::new(format!("r{}", r.name), cond, actions);
+    let rule = if r.name % 2 == 1 { rule.with_priority(r.sal as i32) } else { rule.with_salience(r.sal as i32) };
+    let mut rule = rule
         .with_no_loop(r.flags & 2 != 0)
         .with_lock_on_active(r.flags & 4 != 0);
     rule.enabled = r.flags & 1 != 0;
@@ -376,13 +393,17 @@ fn build_rule(r: &RuleSpec) -> Rule {
 pub fn exec_case(case: &str) -> String {
     let Some(c) = parse_case(case) else { return "bad-case".into() };
     let kb = KnowledgeBase::new("c02");
+    let wf = c.ops.iter().any(|o| o.starts_with('W') || o.starts_with('Y'));
     for r in &c.rules {
-        if kb.add_rule(build_rule(r)).is_err() {
+        if kb.add_rule(build_rule(r, wf)).is_err() {
             return "bad-case-dup".into();
         }
     }
-    let cfg = EngineConfig { max_cycles: c.maxc, timeout: None, enable_stats: false, debug_mode: false };
-    let mut eng = RustRuleEngine::with_config(kb, cfg);
+    let mut eng = if c.maxc == DFLT {
+        RustRuleEngine::new(kb)
+    } else {
+        RustRuleEngine::with_config(kb, EngineConfig { max_cycles: c.maxc, timeout: None, enable_stats: false, debug_mode: false })
+    };
     let log: Arc<Mutex<Vec<(i64, i64, std::time::Instant)>>> = Arc::new(Mutex::new(Vec::new()));
     let l2 = log.clone();
     eng.register_action_handler("tr", move |p, _| {
@@ -407,13 +428,50 @@ pub fn exec_case(case: &str) -> String {
     let mut out = Vec::new();
     for op in &c.ops {
         log.lock().unwrap().clear();
-        let k = op.chars().next().unwrap_or('?');
-        let rest = &op[k.len_utf8()..];
+        let mut k = op.chars().next().unwrap_or('?');
+        let mut rest = &op[k.len_utf8()..];
+        // `M<op>`: the same knowledge-base call through `knowledge_base_mut()`
+        let via_mut = k == 'M';
+        if via_mut {
+            k = rest.chars().next().unwrap_or('?');
+            rest = &rest[k.len_utf8()..];
+            if !matches!(k, 'A' | 'R' | 'E' | 'D') {
+                return "bad-case".into();
+            }
+        }
         let mut events = "-".to_string();
         let res: String = match k {
-            'X' | 'C' => {
+            'X' | 'C' | 'T' | 'W' | 'Y' => {
                 let mut cb: Vec<String> = Vec::new();
-                let r = if k == 'X' {
+                let mut steps: Option<usize> = None;
+                let r = if k == 'T' {
+                    if !rest.is_empty() {
+                        return "bad-case".into();
+                    }
+                    eng.execute(&facts)
+                } else if k == 'W' {
+                    let Ok(g) = rest.parse::<u64>() else { return "bad-case".into() };
+                    eng.execute_workflow_step(&group_name(g), &facts)
+                } else if k == 'Y' {
+                    let Some(gs) = rest.split('.').map(|x| x.parse::<u64>().ok().map(group_name)).collect::<Option<Vec<String>>>() else {
+                        return "bad-case".into();
+                    };
+                    match eng.execute_workflow(gs.iter().map(|s| s.as_str()).collect(), &facts) {
+                        Ok(w) => {
+                            steps = Some(w.steps_executed);
+                            if !w.success {
+                                return "workflow-unsuccessful".into();
+                            }
+                            Ok(rust_rule_engine::engine::engine::GruleExecutionResult {
+                                cycle_count: 0,
+                                rules_evaluated: 0,
+                                rules_fired: 0,
+                                execution_time: std::time::Duration::from_millis(0),
+                            })
+                        }
+                        Err(e) => Err(e),
+                    }
+                } else if k == 'X' {
                     let Ok(t) = rest.parse::<u64>() else { return "bad-case".into() };
                     let ts = Rule::new("d".into(), ConditionGroup::single(Condition::new("x".into(), Operator::Equal, Value::Null)), vec![])
                         .with_date_effective_str(&date_str(t))
@@ -433,9 +491,10 @@ pub fn exec_case(case: &str) -> String {
                 }
                 stamped.sort_by_key(|e| e.2);
                 let evs: Vec<(i64, i64)> = stamped.iter().map(|e| (e.0, e.1)).collect();
-                let mut res = match &r {
-                    Ok(g) => format!("ok,{},{},{}", g.cycle_count, g.rules_evaluated, g.rules_fired),
-                    Err(_) => "err".to_string(),
+                let mut res = match (&r, steps) {
+                    (Ok(_), Some(n)) => format!("w{}", n),
+                    (Ok(g), None) => format!("ok,{},{},{}", g.cycle_count, g.rules_evaluated, g.rules_fired),
+                    (Err(_), _) => "err".to_string(),
                 };
                 let shown: Vec<String> =
                     evs.iter().map(|(k, v)| format!("{}{}", if *k == 0 { "f" } else if *k == 1 { "a" } else { "?" }, v)).collect();
@@ -469,6 +528,31 @@ pub fn exec_case(case: &str) -> String {
                 eng.reset_no_loop_tracking();
                 "u".into()
             }
+            'B' => {
+                match rest {
+                    "0" => eng.set_debug_mode(false),
+                    "1" => eng.set_debug_mode(true),
+                    _ => return "bad-case".into(),
+                }
+                "u".into()
+            }
+            'Q' => {
+                match rest {
+                    "0" => eng.disable_analytics(),
+                    "1" => eng.enable_analytics(rust_rule_engine::engine::analytics::RuleAnalytics::new(
+                        rust_rule_engine::engine::analytics::AnalyticsConfig::default(),
+                    )),
+                    _ => return "bad-case".into(),
+                }
+                "u".into()
+            }
+            'K' => {
+                if !rest.is_empty() {
+                    return "bad-case".into();
+                }
+                eng.knowledge_base().clear();
+                "u".into()
+            }
             'V' => {
                 let Ok(g) = rest.parse::<u64>() else { return "bad-case".into() };
                 eng.activate_agenda_group(group_name(g));
@@ -476,14 +560,18 @@ pub fn exec_case(case: &str) -> String {
             }
             'A' => {
                 let Some(r) = parse_rule(rest) else { return "bad-case".into() };
-                match eng.knowledge_base().add_rule(build_rule(&r)) {
+                let rule = build_rule(&r, wf);
+                let added = if via_mut { eng.knowledge_base_mut().add_rule(rule) } else { eng.knowledge_base().add_rule(rule) };
+                match added {
                     Ok(()) => "a1".into(),
                     Err(_) => "a0".into(),
                 }
             }
             'R' => {
                 let Ok(n) = rest.parse::<u64>() else { return "bad-case".into() };
-                match eng.knowledge_base().remove_rule(&format!("r{}", n)) {
+                let name = format!("r{}", n);
+                let removed = if via_mut { eng.knowledge_base_mut().remove_rule(&name) } else { eng.knowledge_base().remove_rule(&name) };
+                match removed {
                     Ok(true) => "b1".into(),
                     Ok(false) => "b0".into(),
                     Err(_) => "berr".into(),
@@ -491,7 +579,13 @@ pub fn exec_case(case: &str) -> String {
             }
             'E' | 'D' => {
                 let Ok(n) = rest.parse::<u64>() else { return "bad-case".into() };
-                match eng.knowledge_base().set_rule_enabled(&format!("r{}", n), k == 'E') {
+                let name = format!("r{}", n);
+                let set = if via_mut {
+                    eng.knowledge_base_mut().set_rule_enabled(&name, k == 'E')
+                } else {
+                    eng.knowledge_base().set_rule_enabled(&name, k == 'E')
+                };
+                match set {
                     Ok(true) => "b1".into(),
                     Ok(false) => "b0".into(),
                     Err(_) => "berr".into(),
@@ -633,7 +727,12 @@ fn gen_rule(rng: &mut Rng, name: u64, nf: u64, ngroups: u64, nact: u64) -> RuleS
         cond = ('L', rng.below(nf), 50);
     }
     let na = rng.below(3);
-    let acts = (0..na).map(|_| gen_act(rng, nf, ngroups)).collect();
+    let mut acts: Vec<(char, u64, i64)> = (0..na).map(|_| gen_act(rng, nf, ngroups)).collect();
+    if rng.chance(1, 8) {
+        // a workflow bookkeeping action (ScheduleRule / CompleteWorkflow / SetWorkflowData), alone or next to the others
+        let at = rng.below(acts.len() as u64 + 1) as usize;
+        acts.insert(at, ('W', rng.below(3), 0));
+    }
     let effh = if eff.is_some() { gen_how(rng) } else { How::Z };
     let exph = if exp.is_some() { gen_how(rng) } else { How::Z };
     RuleSpec { name, sal: *rng.pick(&SALS), flags, ag, actg, eff, exp, effh, exph, cond, acts }
@@ -652,27 +751,39 @@ fn gen(rng: &mut Rng, n: usize, _tier: &str) -> Vec<String> {
         let mut ops = Vec::new();
         for j in 0..nops {
             let last = j + 1 == nops;
-            let o = match if last { rng.below(5) } else { rng.below(16) } {
+            let o = match if last { rng.below(7) } else { rng.below(25) } {
                 0..=3 => format!("X{}", rng.pick(&TIMES)),
                 4 | 5 => "C".to_string(),
-                6 | 7 => format!("F{}", rng.below(ngroups)),
-                8 => "P".to_string(),
-                9 => "Z".to_string(),
-                10 => "N".to_string(),
-                11 => format!("V{}", rng.below(ngroups)),
-                12 => { let nm = rng.below(nr + 2); format!("A{}", show_rule(&gen_rule(rng, nm, nf, ngroups, nact))) }
-                13 => format!("R{}", rng.below(nr + 1)),
-                14 => format!("{}{}", if rng.chance(1, 2) { 'E' } else { 'D' }, rng.below(nr + 1)),
+                6 => "T".to_string(),
+                7 | 8 => format!("F{}", rng.below(ngroups)),
+                9 => "P".to_string(),
+                10 => "Z".to_string(),
+                11 => "N".to_string(),
+                12 => format!("V{}", rng.below(ngroups)),
+                13 => { let nm = rng.below(nr + 2); format!("A{}", show_rule(&gen_rule(rng, nm, nf, ngroups, nact))) }
+                14 => format!("R{}", rng.below(nr + 1)),
+                15 => format!("{}{}", if rng.chance(1, 2) { 'E' } else { 'D' }, rng.below(nr + 1)),
+                16 => format!("S{}.{}", rng.below(nf), rng.below(3)),
+                17 => format!("{}{}", if rng.chance(2, 3) { 'B' } else { 'Q' }, rng.below(2)),
+                18 | 19 => format!("W{}", rng.below(ngroups)),
+                20 => {
+                    let k = rng.range(1, 3);
+                    format!("Y{}", (0..k).map(|_| rng.below(ngroups).to_string()).collect::<Vec<_>>().join("."))
+                }
+                21 => { let nm = rng.below(nr + 2); format!("MA{}", show_rule(&gen_rule(rng, nm, nf, ngroups, nact))) }
+                22 => format!("M{}{}", rng.pick(&['R', 'E', 'D']), rng.below(nr + 1)),
+                23 => "K".to_string(),
                 _ => format!("S{}.{}", rng.below(nf), rng.below(3)),
             };
             ops.push(o);
         }
-        let maxc = *rng.pick(&[1usize, 1, 2, 3, 5]);
+        // 1 in 12: the engine is built with `RustRuleEngine::new` (default configuration)
+        let maxc = if rng.chance(1, 12) { DFLT } else { *rng.pick(&[1usize, 1, 2, 3, 5]) };
         out.push(show_case(&Case { maxc, facts, rules, ops }));
     }
     // focus-history family: long set/pop/clear/activate histories with repeated groups (the focus stack must
     // hold each group once; a duplicate only shows after re-focusing a buried group and popping twice)
-    for _ in 0..n / 8 {
+    for _ in 0..n / 5 {
         let nf = 3u64;
         let ngroups = rng.range(2, 4);
         let nr = rng.range(2, 5);
@@ -691,17 +802,69 @@ fn gen(rng: &mut Rng, n: usize, _tier: &str) -> Vec<String> {
             let o = if j + 1 == nops {
                 if rng.chance(1, 2) { "C".to_string() } else { format!("X{}", rng.pick(&TIMES)) }
             } else {
-                match rng.below(20) {
-                    0..=9 => format!("F{}", rng.below(ngroups)),
-                    10..=15 => "P".to_string(),
-                    16 => "Z".to_string(),
-                    17 => format!("V{}", rng.below(ngroups)),
+                match rng.below(24) {
+                    0..=8 => format!("F{}", rng.below(ngroups)),
+                    9 | 10 => "Z".to_string(),
+                    11..=15 => "P".to_string(),
+                    16 => format!("V{}", rng.below(ngroups)),
+                    17 => format!("W{}", rng.below(ngroups)),
+                    // executes in the middle of the focus history: what fired is remembered across pops and clears
+                    18 | 19 => "C".to_string(),
+                    20 => "T".to_string(),
                     _ => format!("X{}", rng.pick(&TIMES)),
                 }
             };
             ops.push(o);
         }
         out.push(show_case(&Case { maxc: 1, facts, rules, ops }));
+    }
+    // abort family: an execute that returns Err (an action reads an absent field) or ends at the bound after activation-group
+    // rules fired, the cause repaired or not, then further executes on the same engine (per-pass bookkeeping must not
+    // survive the aborted call); every ordered pair of entry points
+    for _ in 0..n / 20 {
+        let nact = rng.range(1, 2);
+        let na = rng.range(2, 4);
+        let mut rules: Vec<RuleSpec> = (0..na)
+            .map(|i| RuleSpec {
+                name: i,
+                sal: *rng.pick(&[7i64, 0, 0, -5]),
+                flags: if rng.chance(1, 8) { 3 } else { 1 },
+                ag: None,
+                actg: if rng.chance(1, 8) { None } else { Some(i % nact) },
+                eff: None,
+                exp: None,
+                effh: How::Z,
+                exph: How::Z,
+                cond: if rng.chance(3, 4) { ('L', 0, 50) } else { gen_cond(rng, 2) },
+                acts: if rng.chance(1, 2) { vec![('A', rng.below(2), 1)] } else { vec![] },
+            })
+            .collect();
+        let failing = rng.chance(3, 4);
+        if failing {
+            let sal = if rng.chance(5, 6) { *rng.pick(&[-5i64, -9, 0]) } else { 9 };
+            let actg = if rng.chance(1, 4) { Some(rng.below(nact)) } else { None };
+            let flags = if rng.chance(1, 4) { *rng.pick(&[5u8, 3, 7]) } else { 1 };
+            rules.push(RuleSpec { name: 9, sal, flags, ag: None, actg, eff: None, exp: None, effh: How::Z, exph: How::Z, cond: ('L', 0, 50), acts: vec![('A', 2, 1)] });
+        }
+        let ex = |rng: &mut Rng| match rng.below(5) {
+            0 | 1 => "C".to_string(),
+            2 => "T".to_string(),
+            _ => format!("X{}", rng.pick(&TIMES)),
+        };
+        let mut ops = vec![ex(rng)];
+        match rng.below(8) {
+            0 | 1 => ops.push("D9".to_string()),
+            2 => ops.push("R9".to_string()),
+            3 | 4 => ops.push("S2.0".to_string()),
+            5 => ops.push(format!("F{}", 0)),
+            _ => {}
+        }
+        ops.push(ex(rng));
+        if rng.chance(1, 3) {
+            ops.push(ex(rng));
+        }
+        let facts = vec![Some(0), Some(0), if failing { None } else { Some(0) }];
+        out.push(show_case(&Case { maxc: *rng.pick(&[1usize, 2, 3, 3, 5]), facts, rules, ops }));
     }
     // large-knowledge-base family: 20..48 rules with many salience ties added in non-monotone order
     // (insertion order among equals must survive the sort for every size, not only for small vectors)
@@ -784,6 +947,27 @@ pub fn shrink(case: &str) -> Vec<String> {
     for rules in shrink_list(&c.rules) {
         out.push(show_case(&Case { maxc: c.maxc, facts: c.facts.clone(), rules, ops: c.ops.clone() }));
     }
+    for (i, op) in c.ops.iter().enumerate() {
+        let mut vars: Vec<String> = Vec::new();
+        if let Some(gs) = op.strip_prefix('Y') {
+            let gs: Vec<&str> = gs.split('.').collect();
+            for sub in shrink_list(&gs) {
+                if !sub.is_empty() {
+                    vars.push(format!("Y{}", sub.join(".")));
+                }
+            }
+            if gs.len() == 1 {
+                vars.push(format!("W{}", gs[0]));
+            }
+        } else if let Some(o) = op.strip_prefix('M') {
+            vars.push(o.to_string());
+        }
+        for v in vars {
+            let mut ops = c.ops.clone();
+            ops[i] = v;
+            out.push(show_case(&Case { maxc: c.maxc, facts: c.facts.clone(), rules: c.rules.clone(), ops }));
+        }
+    }
     for i in 0..c.rules.len() {
         let r = &c.rules[i];
         let mut vars: Vec<RuleSpec> = Vec::new();
@@ -821,7 +1005,10 @@ pub fn shrink(case: &str) -> Vec<String> {
             out.push(show_case(&Case { maxc: c.maxc, facts: c.facts.clone(), rules, ops: c.ops.clone() }));
         }
     }
-    if c.maxc > 1 {
+    if c.maxc == DFLT {
+        // the `with_config` twin with the same bound
+        out.push(show_case(&Case { maxc: 100, facts: c.facts.clone(), rules: c.rules.clone(), ops: c.ops.clone() }));
+    } else if c.maxc > 1 {
         out.push(show_case(&Case { maxc: c.maxc - 1, facts: c.facts.clone(), rules: c.rules.clone(), ops: c.ops.clone() }));
         out.push(show_case(&Case { maxc: 1, facts: c.facts.clone(), rules: c.rules.clone(), ops: c.ops.clone() }));
     }
